@@ -82,7 +82,7 @@ Lemma invC_step s t th c s' l :
   nth_error (s_thr s) t = Some th -> step_th s t th c = Some (s', l) -> invC s -> invC s'.
 Proof. intros Ht H I. split; [eapply invC_valid_step | eapply invC_uniq_step]; eauto. Qed.
 
-Lemma invC_init progs : invC (init progs).
+Lemma invC_init g progs : invC (init_g g progs).
 Proof.
   split.
   - intros t th H e He. cbn in H. rewrite nth_error_map in H. destruct (nth_error progs t); inversion H; subst. discriminate.
@@ -92,7 +92,7 @@ Qed.
 
 Lemma invC_reach progs s : reach progs s -> invC s.
 Proof.
-  apply reach_ind; [apply invC_init|].
+  apply reach_ind; [intro g; apply invC_init|].
   intros s0 t c s1 I H. apply step_inv in H. destruct H as [th [l [Ht H]]]. eapply invC_step; eauto.
 Qed.
 
